@@ -3,7 +3,7 @@
 # named by its file-name prefix (cNN_...) and appends one line per mutant to mutants/RESULTS.txt
 cd /verif || exit 2
 pat="${1:-}"
-: > mutants/RESULTS.txt
+[ -z "$pat" ] && : > mutants/RESULTS.txt
 for f in mutants/*${pat}*.patch; do
   b="$(basename "$f")"
   prop="$(echo "$b" | cut -c1-3 | tr a-z A-Z)"
